@@ -653,6 +653,11 @@ func (l *lexer) lexToken(tok int) action {
 			l.stack = l.stack[:len(l.stack)-1]
 			return l.lexRedir
 		}
+	case 0:
+		// EOF
+		if l.heredoc.exists() {
+			return l.lexHeredoc
+		}
 	default:
 		if tok > 0 {
 			l.emit(tok)
